@@ -169,6 +169,9 @@ def c01sys (args res : List String) : Verdict :=
           if out = "P" then some (vProp "a-task-or-the-manager-panicked" "sys") else
           match out.splitOn "~" with
           | [logS, stS, psS, wrS, flS] =>
+            -- a command the manager answers with an error: its event loop unwraps every result (`expect`), the client is gone
+            if (logS.splitOn "+").any (fun e => e.endsWith ">E") then
+              some (vProp "a-task-or-the-manager-panicked" s!"sys-manager-error-ev{min n 9}") else
             let implSt := (parseStatuses stS).getD []
             let newFiles := if flS = "-" then [] else flS.splitOn "+"
             let seen' := seenFiles ++ newFiles
